@@ -36,7 +36,7 @@ VSTR* _ZNSt7__cxx1112basic_stringIcSt11char_traitsIcESaIcEE10_M_replaceEmmPKcm(V
     if (len2) irc_memcpy(data + pos, s, len2);
   } else {
 #ifdef NEED_STRING_NOGROW
-    P(0, "string model: capacity bound (15, SSO) exceeded - job bound too small for this tree"); PATH_END();
+    P(0, "string model: capacity bound exceeded - job bound too small for this tree"); PATH_END();
 #else
     u64 nc = nl > 2 * cap ? nl : 2 * cap;
     u8* nd = malloc(nc + 1); __CPROVER_assume(nd != 0);
